@@ -40,12 +40,15 @@ def run_one(case, acc, oracle_fns, nontrivial=None, sample=None, post=None):
     if tr.errors:
         acc.inconclusive.append(f"harness error in case seed={case['seed']}: {tr.errors[0][:300]}")
         return tr
-    if tr.livelock:
-        acc.inconclusive.append(f"virtual-time limit hit in case seed={case['seed']}")
-        return tr
     wit = {"case": case}
+    before = sum(v["count"] for v in acc.viol.values())
     for fn in oracle_fns:
         fn(tr, acc, wit)
+    if tr.livelock:
+        # runaway / virtual-time limit: the partial trace was still checked; without a violation the case says nothing
+        if sum(v["count"] for v in acc.viol.values()) == before:
+            acc.inconclusive.append(f"run did not settle (tick or virtual-time limit) in case seed={case['seed']}")
+        return tr
     nt = True if nontrivial is None else nontrivial(tr)
     if nt is True:
         acc.sig(oracles.sig_of_trace(tr))
